@@ -145,10 +145,10 @@ def Key.ofYaml : Yaml → R Key
   | .str s => .ok (.str s)
   | .seq _ => .error (.unmodelled "sequence as mapping key".toList)
   | .map _ => .error (.unmodelled "mapping as mapping key".toList)
-  | .tagged _ _ => .error (.panic .yamlTagged)
+  | .tagged _ _ => .error .yamlTaggedValue
 
 mutual
-/-- `impl From<serde_yaml::Value> for Value`. -/
+/-- `Value::try_from_yaml` (the fallible conversion used by `Mapping::from_str` and `Node::from_str`). -/
 def Value.ofYaml : Yaml → R Value
   | .null => .ok .null
   | .bool b => .ok (.bool b)
@@ -162,7 +162,7 @@ def Value.ofYaml : Yaml → R Value
     match ofYamlEs es {} with
     | .error e => .error e
     | .ok m => .ok m.toValue
-  | .tagged _ _ => .error (.panic .yamlTagged)
+  | .tagged _ _ => .error .yamlTaggedValue
 def ofYamlL : List Yaml → R (List Value)
   | [] => .ok []
   | y :: ys =>
@@ -171,7 +171,8 @@ def ofYamlL : List Yaml → R (List Value)
     | .ok v => match ofYamlL ys with
       | .error e => .error e
       | .ok vs => .ok (v :: vs)
-/-- `impl From<serde_yaml::Mapping> for Mapping`: `new.insert(k, v).unwrap()`. -/
+/-- `Mapping::try_from_yaml`: `new.insert(k, v)?` — a key written as constant and again later in
+the same mapping is an ordinary constant-key error. -/
 def ofYamlEs : List (Yaml × Yaml) → Mapping → R Mapping
   | [], m => .ok m
   | (k, v) :: rest, m =>
@@ -182,7 +183,7 @@ def ofYamlEs : List (Yaml × Yaml) → Mapping → R Mapping
       | .error e => .error e
       | .ok v' =>
         match m.insert k' v' with
-        | .error _ => .error (.panic .yamlConstDup)
+        | .error e => .error e
         | .ok m' => ofYamlEs rest m'
 end
 
